@@ -20,7 +20,7 @@ func die(id int, nodes ...Node) Die { return Die{ID: id, Nodes: nodes} }
 
 // Builtins returns the named machines (fresh copies).
 func Builtins() []*Machine {
-	return []*Machine{t1(), t2(), t3(), t4(), t5(), t6(), t7(), t8(), t9()}
+	return []*Machine{t1(), t2(), t3(), t4(), t5(), t6(), t7(), t8(), t9(), t10()}
 }
 
 // Builtin returns a named machine.
@@ -41,6 +41,19 @@ func t1() *Machine {
 			dnode(1, 4*GiB, core(2, 4, 5), core(3, 6, 7))))},
 		CPUless:  []MemNode{{ID: 2, Mem: 8 * GiB, Type: PMEM, Normal: false, Near: []int{0}}},
 		Distance: [][]int{{10, 21, 17}, {21, 10, 28}, {17, 28, 10}},
+		Offline:  []int{}, Isolated: []int{}}
+}
+
+// T10: T1's shape with every PMEM node holding normal (not movable-only) memory: the only kind of machine on which the
+// topology-aware policy leaves cold start enabled.  One PMEM node next to each DRAM node.
+func t10() *Machine {
+	return &Machine{Name: "T10",
+		Packages: []Package{pkg(0, die(0,
+			dnode(0, 4*GiB, core(0, 0, 1), core(1, 2, 3)),
+			dnode(1, 4*GiB, core(2, 4, 5), core(3, 6, 7))))},
+		CPUless: []MemNode{{ID: 2, Mem: 8 * GiB, Type: PMEM, Normal: true, Near: []int{0}},
+			{ID: 3, Mem: 8 * GiB, Type: PMEM, Normal: true, Near: []int{1}}},
+		Distance: [][]int{{10, 21, 17, 28}, {21, 10, 28, 17}, {17, 28, 10, 28}, {28, 17, 28, 10}},
 		Offline:  []int{}, Isolated: []int{}}
 }
 
